@@ -145,12 +145,15 @@ func (s *Service) ScheduleJob(ctx context.Context,
 				// The job has been started by RunJob(), which sends the run signal whilst holding the
 				// state lock; pick the signal up here rather than dropping the job.
 				<-job.runCh
+				verifPoint(job, "GTRecv")
 				s.log.Trace().Str("job", name).Time("scheduled", runtime).Msg("Run triggered; job running")
 				monitorJobStartedOnSignal(class)
 				jobFunc(ctx)
 				s.log.Trace().Str("job", name).Time("scheduled", runtime).Msg("Job complete")
 				finaliseJob(job)
+				verifPoint(job, "GRFinalised")
 				job.active.Store(false)
+				verifPoint(job, "GRReset")
 				break
 			}
 			verifPoint(job, "GTInactive")
